@@ -384,6 +384,64 @@ def oracle(out: tuple, src: str) -> str | None:
     return None
 
 
+def ast_positions(src: str) -> tuple[int, str | None]:
+    """Parse `src` and check the position of every syntax-tree node and
+    expression: (number of nodes visited, first failure or None). Sources that
+    do not parse are skipped (0, None)."""
+    from liquid2 import Environment
+    from liquid2.ast import Node
+    from liquid2.exceptions import LiquidError
+    from liquid2.expression import Expression
+
+    try:
+        t = env_for(False).from_string(src)
+    except LiquidError:
+        return 0, None
+    except Exception:  # noqa: BLE001  (C02's business)
+        return 0, None
+    n = len(src)
+    count = 0
+    fail: str | None = None
+
+    def fields(o: Any) -> dict:
+        d = {}
+        if hasattr(o, "__dict__"):
+            d.update(vars(o))
+        for c in type(o).__mro__:
+            for a in getattr(c, "__slots__", ()) or ():
+                if isinstance(a, str) and hasattr(o, a):
+                    d[a] = getattr(o, a)
+        return d
+
+    def walk(o: Any, depth: int) -> None:
+        nonlocal count, fail
+        if depth > 60 or fail:
+            return
+        if isinstance(o, (Node, Expression)):
+            count += 1
+            tok = getattr(o, "token", None)
+            if tok is not None:
+                a, b = tok.start, tok.stop
+                if getattr(tok, "source", src) == src and not (0 <= a < n and a <= b <= n):
+                    fail = f"ast-position: {type(o).__name__}.token spans [{a},{b}) outside the source of length {n}"
+                    return
+            for v in fields(o).values():
+                walk(v, depth + 1)
+        elif isinstance(o, (list, tuple)):
+            for v in o:
+                walk(v, depth + 1)
+        elif isinstance(o, dict):
+            for v in o.values():
+                walk(v, depth + 1)
+        elif (hasattr(o, "__dict__") and type(o).__module__.startswith("liquid2")
+              and not isinstance(o, Environment) and type(o).__name__ != "Template"):
+            for v in fields(o).values():
+                walk(v, depth + 1)
+
+    walk(t.nodes, 0)
+    return count, fail
+
+
 # ---------------------------------------------------------------- correspondence with one retry
 
 
